@@ -138,6 +138,9 @@ func genCrash(cfg simkit.RunConfig, backend string) *Scenario {
 	per := maxCrashPos*2 + maxTSOPos
 	shape, pos := cfg.Index/per, cfg.Index%per
 	sc, _ := baseShape(cfg, shape, backend)
+	if backend == "R" && shape%8 == 7 {
+		asyncRecoveryFamily(cfg, shape, sc)
+	}
 	mark := fmt.Sprintf("end%d", sc.Txns[0].ID)
 	switch {
 	case pos < maxCrashPos:
@@ -146,6 +149,16 @@ func genCrash(cfg simkit.RunConfig, backend string) *Scenario {
 		sc.Net.Plan[fmt.Sprintf("ord:0:%s+%d", mark, pos-maxCrashPos)] = simkit.CrashAfter
 	default:
 		sc.Net.Plan[fmt.Sprintf("tso:0:%s+%d", mark, pos-2*maxCrashPos)] = simkit.CrashBefore
+	}
+	if r3 := simkit.Rand(cfg.Seed, "recovery-splits"); backend == "R" && r3.Intn(3) == 0 {
+		// the survivors' recovery meets a topology change of its own: the first request of a kind a resolver sends
+		// (CheckSecondaryLocks of the async-commit recovery above all) splits its region strictly INSIDE its keys before
+		// it is served - the keys of one request end up in two regions, the answer is EpochNotMatch, the resolver has
+		// to re-group them and ask both parts
+		sc.Knobs.InnerSplits = true
+		for c := 1; c <= sc.Clients; c++ {
+			sc.Net.Plan[fmt.Sprintf("cmd:%d:%s+0", c, pick(r3, []string{"CheckSecondaryLocks", "CheckSecondaryLocks", "ResolveLock", "BatchGet"}))] = pick(r3, []simkit.Fate{simkit.TopoSplitBetween, simkit.TopoSplitBetween, simkit.TopoSplit})
+		}
 	}
 	if cfg.Mode == "crashfaults" {
 		// the same enumeration with a lossy network around it: lost clean-up messages of earlier
@@ -168,6 +181,38 @@ func genCrash(cfg simkit.RunConfig, backend string) *Scenario {
 		}
 	}
 	return sc
+}
+
+// asyncRecoveryFamily turns every eighth shape of the crash enumeration (reference backend) into the case the async-commit
+// recovery is written for: an async-commit victim with three or four keys in ONE region whose prewrite goes out one key
+// per request (so that the client can die between two of them), and survivors whose first CheckSecondaryLocks request
+// has its region split between its own keys - the recovery must re-group the secondaries and ask every part.
+func asyncRecoveryFamily(cfg simkit.RunConfig, shape int, sc *Scenario) {
+	r := simkit.Rand(cfg.BaseSeed, fmt.Sprintf("async-recovery-%s-%d", cfg.Mode, shape))
+	keys := subset(r, keyPool, 3, 4)
+	v := TxnProg{ID: 0, Client: 0, DelayMs: 5 + r.Intn(10), Async: true, Pessimistic: r.Intn(3) == 0, End: "commit"}
+	for i, k := range keys {
+		if v.Pessimistic {
+			v.Ops = append(v.Ops, Op{Kind: "lock", Keys: []string{k}})
+		}
+		v.Ops = append(v.Ops, Op{Kind: "set", Keys: []string{k}, Val: fmt.Sprintf("v0.%d", i)})
+	}
+	sc.Txns = []TxnProg{v}
+	sc.Splits, sc.Topo = nil, nil
+	sc.Stores = 1 + r.Intn(3)
+	sc.Knobs.CommitBatchSize = 1
+	sc.Knobs.InnerSplits = true
+	for c := 1; c <= 2; c++ {
+		p := TxnProg{ID: c, Client: c, DelayMs: 3200 + r.Intn(3000), End: "commit"}
+		p.Ops = append(p.Ops, Op{Kind: pick(r, []string{"bget", "get", "iter"}), Keys: append([]string(nil), keys...)}, Op{Kind: "sleep", SleepMs: 200 + r.Intn(2000)}, Op{Kind: "bget", Keys: append([]string(nil), keys...)})
+		if p.Ops[0].Kind == "get" {
+			p.Ops[0].Keys = []string{pick(r, keys)}
+		}
+		sc.Txns = append(sc.Txns, p)
+	}
+	for c := 1; c <= sc.Clients; c++ {
+		sc.Net.Plan[fmt.Sprintf("cmd:%d:CheckSecondaryLocks+0", c)] = pick(r, []simkit.Fate{simkit.TopoSplitBetween, simkit.TopoSplitBetween, simkit.Deliver})
+	}
 }
 
 var commitFaults = []simkit.Fate{
